@@ -437,6 +437,12 @@ class StreamableHTTPTransport(Transport):
 
     async def _route_response(self, response_data: Dict[str, Any]) -> None:
         """Route response to the appropriate handler."""
+        # A JSON-RPC batch: route every member, in order
+        if isinstance(response_data, list):
+            for item in response_data:
+                await self._route_response(item)
+            return
+
         try:
             from chuk_mcp.protocol.messages.json_rpc_message import JSONRPCMessage
 
